@@ -3,7 +3,12 @@ package main
 // SplitMix64: every random choice of the harness derives from one state seeded by VERIF_SEED.
 type Rand struct{ s uint64 }
 
-func NewRand(seed uint64) *Rand { return &Rand{s: seed*0x9E3779B97F4A7C15 + 0x1234567} }
+// The seed is mixed before use: with a plain multiple of the SplitMix increment as the initial state, the
+// stream of seed n+1 would be the stream of seed n shifted by one output (nearly the same cases).
+func NewRand(seed uint64) *Rand {
+	r := &Rand{s: seed*0x9E3779B97F4A7C15 + 0x1234567}
+	return &Rand{s: r.U64() ^ (seed << 32)}
+}
 
 func (r *Rand) U64() uint64 {
 	r.s += 0x9E3779B97F4A7C15
